@@ -62,6 +62,47 @@ def rule_cpr(ck, units):
             ck.ob('cpr-two-stage', f.cls, f.where(), ok, '' if ok else 'apply computes x = `%s`; the two-stage CPR formula is `%s`' % (la.lshow(got) if got is not None else 'nothing', la.lshow(want)))
 
 
+def rule_schur_lm(ck, units):
+    """the explicit pressure block used by the matrix-free Schur operator (adjust_p == 2: y = alpha Lm x + ...) is Kpp as extracted from K:
+    no modification of Kpp (re-assignment, compound update of its values) can reach  Lm = copy_matrix(Kpp)."""
+    from effects import path_between
+    from ir import access_path
+    ck.rule('schur-Lm-is-Kpp', 'the matrix Lm applied by the Schur operator is a copy of the extracted block Kpp taken before any adjustment of Kpp '
+                               '(no re-assignment / compound update of Kpp reaches Lm = copy_matrix(Kpp))', 1)
+    done = set()
+    for u in units.values():
+        for f in u.funcs:
+            if not f.cls or 'schur_pressure_correction' not in f.cls or f.cfg is None or f.cls in done:
+                continue
+            copies = []
+            for n in f.nodes.values():
+                if n['k'] in ('bin', 'opcall') and n.get('op') == '=':
+                    x = unwrap(n.get('x'))
+                    y = unwrap(n.get('y'))
+                    if x is not None and x['k'] == 'mem' and x.get('n') == 'Lm' and y is not None and y['k'] == 'call' and (y.get('f') or '').endswith('copy_matrix'):
+                        src = unwrap(y['a'][0])
+                        if src is not None and src['k'] == 'ref':
+                            copies.append((n, src['d']))
+            if not copies:
+                continue
+            done.add(f.cls)
+            for cp, d in copies:
+                mods = []
+                for n in f.nodes.values():
+                    if n['k'] in ('bin', 'opcall') and n.get('op') in ('=', '+=', '-=', '*=', '/=') and n.get('x') is not None:
+                        x = unwrap(n['x'])
+                        if n['op'] == '=' and x is not None and x['k'] == 'ref' and x['d'] == d:
+                            mods.append(n)
+                        elif n['op'] != '=':
+                            ap = access_path(n['x'])
+                            if ap is not None and ap[0] == 'var' and ap[1] == d:
+                                mods.append(n)
+                bad = [m for m in mods if path_between(f, m, cp)]
+                ck.ob('schur-Lm-is-Kpp', f.cls.split('<')[0], f.where(cp), not bad, '' if not bad else
+                      '`%s` is modified at %s (%s) before it is copied into Lm at %s: the Schur operator would apply the adjusted block' % (
+                          f.decl(d)['n'], f.where(bad[0]), show(bad[0])[:60], f.where(cp)))
+
+
 def rule_schur(ck, units):
     ck.rule('schur-operator', 'matrix-free Schur complement spmv(alpha, x, beta, y): first write of y uses beta on its old content, later writes accumulate, every added term is scaled by +/- alpha', 1)
     done = set()
@@ -135,6 +176,7 @@ def main(tier):
     ck.add_units(units, specs)
     rule_cpr(ck, units)
     rule_schur(ck, units)
+    rule_schur_lm(ck, units)
     # the diagonal blocks that define the CPR pressure weighting are gathered into per-thread scratch that must be rebuilt for every cell (shared with C10)
     import c10
     c10.rule_E(ck, units, only=lambda f: bool(f.cls) and 'cpr' in f.cls, floor=1)
